@@ -96,6 +96,15 @@ Theorem C13_clusters_frame :
 Proof. exact clusters_frame. Qed.
 Print Assumptions C13_clusters_frame.
 
+(* a refresh cycle whose group-list requests time out: only the cluster list arrives; the records of the clusters it
+   repeats are untouched (a cycle whose cluster-list request times out is no event at all) *)
+Theorem C13_clusters_keeps_record :
+  forall st cs k,
+    memz (fst k) cs = true -> c_known st (fst k) = true -> c_reg st k = true ->
+    c_reg (on_clusters st cs) k = true /\ c_groups (on_clusters st cs) k = c_groups st k.
+Proof. exact clusters_keeps_record. Qed.
+Print Assumptions C13_clusters_keeps_record.
+
 Theorem C13_refresh_silent :
   forall mods st e, is_resp e = false ->
     snd (on_event mods st e) = [] /\ c_next (fst (on_event mods st e)) = c_next st.
